@@ -173,11 +173,11 @@ PROPS = {
     ),
     "C17": dict(
         pkg="c17",
-        units=[rapid("TestPropRoundTrip", 16000, 120000), rapid("TestPropTransforms", 30000, 300000), rapid("TestPropTypes", 30000, 250000), rapid("TestPropValues", 30000, 250000), rapid("TestPropStreams", 20000, 250000),
+        units=[rapid("TestPropRoundTrip", 16000, 120000), rapid("TestPropTransforms", 30000, 300000), rapid("TestPropTypes", 30000, 250000), rapid("TestPropValues", 30000, 250000), rapid("TestPropStreams", 20000, 250000), rapid("TestPropTypeErrors", 20000, 250000),
                fuzz("FuzzRoundTrip", 90), fuzz("FuzzToken", 90)],
-        assumptions=COMMON_ASSUME + ["encoding/json of the default toolchain (go1.23.5) is the reference for everything the fork shares with it; known, normalised differences: spelling of U+0008/U+000C, the distinct Number type (Decoder.UseNumber on the standard side); error message texts are not compared, only dynamic error types"],
+        assumptions=COMMON_ASSUME + ["encoding/json of the default toolchain (go1.23.5) is the reference for everything the fork shares with it; known, normalised differences: spelling of U+0008/U+000C, the distinct Number type (Decoder.UseNumber on the standard side); error message texts are not compared, only dynamic error types - except UnmarshalTypeError, whose Value, Type, Offset, Struct, Field and text are compared for declared struct types while the toolchain is go1.23.x (200000 generated cases agree on the unchanged tree)"],
         technique="property-based testing (rapid): decode->encode round trip through an independent reader; byte-exact text-transform oracles; differential testing against encoding/json over reflect.StructOf-generated types with type-directed inputs and over Decoder/Encoder streams; native fuzzing in the thorough tier",
-        level_text="Generated-input search: (a) every decode function x target kind x encode function round trips generated texts (literals, code points, order; key lists in document order); (b) Compact/Indent/HTMLEscape equal independent byte-exact transforms and encoding/json; (c) on run-time generated struct/map/slice/pointer types with tags, Unmarshal errors, decoded values and Marshal/MarshalEscaped/MarshalIndent bytes equal encoding/json's, also for Go values built directly (strings with arbitrary bytes, floats with exponents, NaN/Inf, nil vs empty, long byte slices, Marshaler/TextMarshaler hook types, embedding chains); (d) Decoder (More, Token, Decode, Buffered, InputOffset) and Encoder traces equal encoding/json's under chunked reads. Exploration only.",
+        level_text="Generated-input search: (a) every decode function x target kind x encode function round trips generated texts (literals, code points, order; key lists in document order); (b) Compact/Indent/HTMLEscape equal independent byte-exact transforms and encoding/json; (c) on run-time generated struct/map/slice/pointer types with tags, Unmarshal errors, decoded values and Marshal/MarshalEscaped/MarshalIndent bytes equal encoding/json's, also for Go values built directly (strings with arbitrary bytes, floats with exponents, NaN/Inf, nil vs empty, long byte slices, Marshaler/TextMarshaler hook types, embedding chains); (d) Decoder (More, Token, Decode, Buffered, InputOffset) and Encoder traces equal encoding/json's under chunked reads; (e) typed decodes into declared struct types with wrong-typed values: same value after the error and the same UnmarshalTypeError fields and text. Exploration only.",
         level_note="Trusted: harness/ref reader, encoding/json of go1.23.5 as differential reference, reflect.StructOf (types it cannot build are excluded and counted). omitzero (go1.24) and custom Marshaler types are not generated.",
     ),
 }
